@@ -261,6 +261,19 @@ def instIsPool (s : State) (inst : Option Nat) : Bool :=
 def freeAdd (s : State) (inst : Option Nat) (d : Int) : State :=
   { s with instances := s.instances.map fun (i : Instance) => if some i.name = inst then { i with free := i.free + d } else i }
 
+/-- the foreign key `attempts.instance_name -> instances(name)`: `add_attempt` fails (and with it the whole procedure, which
+the caller rolls back) when it has to INSERT an attempt row naming an instance that does not exist.  An existing attempt row
+(`ON DUPLICATE KEY UPDATE`) or a NULL instance name is not checked. -/
+def attemptFkFails (s : State) (b j : Nat) (att inst : Option Nat) : Bool :=
+  match att, inst with
+  | some a, some n => (findAttempt s b j a).isNone && (findInstance s n).isNone
+  | _, _ => false
+
+/-- the job row as seen by a procedure that calls `add_attempt`: `none` also when the attempt insert violates the foreign
+key on `instances` — like a missing job row (foreign key on `jobs`), that makes the procedure fail with nothing written -/
+def findJobFk (s : State) (b j : Nat) (att inst : Option Nat) : Option Job :=
+  if attemptFkFails s b j att inst then none else findJob s b j
+
 /-! ## operations -/
 
 /-- a job as submitted in a bunch: ids relative to the update (as the client sends them) or absolute -/
@@ -323,10 +336,17 @@ def createBatch (s : State) (user bp token : Nat) : State × Out :=
         groups := s.groups ++ [Group.mk id 0 [0] none .complete 0 0 0 0 0]
         nextBatch := id + 1 }, .ok id)
 
-/-- `_create_batch_update` -/
+/-- `… INNER JOIN batches ON … WHERE … AND batches.user = %s AND NOT deleted`: the batch exists, belongs to `user` and is not deleted -/
+def ownedBy (s : State) (b user : Nat) : Bool :=
+  match findBatch s b with
+  | some bt => decide (bt.user = user) && !bt.deleted
+  | none => false
+
+/-- `_create_batch_update`: the token lookup (re-sent request) only succeeds for the owner of a non-deleted batch (repo commit
+4c50f4344); everybody else falls through to the ownership check below and gets 404 -/
 def createUpdate (s : State) (b token nJobs nGroups user : Nat) : State × Out :=
   if nJobs = 0 ∧ nGroups = 0 then (s, .err "assert") else
-  match s.updates.find? (fun u => u.batch = b ∧ u.token = token) with
+  match s.updates.find? (fun u => u.batch = b ∧ u.token = token ∧ ownedBy s b user) with
   | some u => (s, .ok u.id)
   | none =>
     match findBatch s b with
@@ -602,9 +622,9 @@ def schedulePrep (s : State) (b j a inst : Nat) (job : Job) : State :=
 
 /-- procedure `schedule_job` -/
 def schedule (s : State) (b j a inst : Nat) : State × Out :=
-  match findJob s b j with
+  match findJobFk s b j (some a) (some inst) with
   | none =>
-    -- no job row: cur_* stay NULL; add_attempt still inserts the attempt (in_cores_mcpu NULL); not modelled: rejected
+    -- no job row / unknown instance: `add_attempt`'s INSERT violates a foreign key of `attempts`; the call fails, nothing is written
     (s, .err "no-job")
   | some job =>
     if (job.state = .Ready ∨ job.state = .Creating) ∧ jobCancelled s job = false ∧
@@ -619,7 +639,7 @@ def startPrep (s : State) (b j a inst : Nat) (ts : Int) (date : Nat) (job : Job)
 
 /-- procedures `mark_job_creating` / `mark_job_started` differ only in the instance state they require and the new state -/
 def startLike (s : State) (b j a inst : Nat) (ts : Int) (date : Nat) (need : IState) (newState : JState) : State × Out :=
-  match findJob s b j with
+  match findJobFk s b j (some a) (some inst) with
   | none => (s, .err "no-job")
   | some job =>
     if job.state = .Ready ∧ jobCancelled s job = false ∧
@@ -683,9 +703,10 @@ def isChildOf (s : State) (b j : Nat) (x : Job) : Bool := x.batch = b ∧ s.pare
 /-- procedure `mark_job_complete` -/
 def complete (s : State) (b j : Nat) (att inst : Option Nat) (newState : JState) (start end_ : Option Int)
     (reason : String) (date : Nat) : State × Out :=
-  match findJob s b j with
+  match findJobFk s b j att inst with
   | none =>
-    -- no job row: with an attempt id `add_attempt` violates the foreign key attempts -> jobs (error); without one (the
+    -- no job row (or a new attempt naming an unknown instance): with an attempt id `add_attempt` violates a foreign key of
+    -- `attempts` (error); without one (the
     -- canceller's form) nothing is written, every `cur_*` stays NULL and the last ELSE branch answers rc 1
     (s, if att.isNone then .ok 1 else .err "no-job")
   | some job =>
